@@ -104,7 +104,7 @@ structure ASet where
   minD : Option Nat            -- `minLatency.dialer`
   minLat : Int                 -- `minLatency.sortingLatency`
   kbit : Bool                  -- ghost: last value handed to `aliveChangeCallback` (kernel bit)
-  ncb : Nat                    -- ghost: number of non-init callbacks fired so far
+  ncb : Nat                    -- ghost: number of callbacks fired since the group's init callbacks
 
 def ASet.has (s : ASet) (d : Nat) : Bool := s.entries.any fun e => e.1 == d
 
